@@ -161,6 +161,11 @@ def windows(template, info):
         w['udf_fid_body'] = (info['udf_fid'] * 2048 + 16, 8, 'first file identifier: version, characteristics, L_FI, ICB')
         w['udf_fid_liu'] = (info['udf_fid'] * 2048 + 36, 2, 'first file identifier: L_IU')
         w['udf_bea'] = (18 * 2048, 7, 'BEA01 recognition descriptor')
+        # a whole structure blanked (an unwritten / zeroed sector) with only its tag symbolic: the all-zero tag is the blank sector itself
+        BLANK['udf_root_fe_blank'] = (info['udf_root_fe'] * 2048, info['udf_root_fe'] * 2048 + 2048)
+        w['udf_root_fe_blank'] = (info['udf_root_fe'] * 2048, 8, 'root file entry: sector zeroed, tag bytes symbolic')
+        BLANK['udf_fsd_blank'] = (info['udf_fsd'] * 2048, info['udf_fsd'] * 2048 + 2048)
+        w['udf_fsd_blank'] = (info['udf_fsd'] * 2048, 8, 'file set descriptor: sector zeroed, tag bytes symbolic')
         w['udf_nsr'] = (19 * 2048, 7, 'NSR descriptor')
     # extent fields: a fully symbolic extent makes the image model enumerate every read position (measured: > 1000 paths, not
     # exhausted in 15 min).  They are split into the LOW byte (all 256 sectors around/inside the ~30-sector template: self, parent,
@@ -175,6 +180,7 @@ def windows(template, info):
     return out
 
 
+BLANK = {}
 WINDOWS = windows(TEMPLATE, INFO)
 
 
@@ -224,6 +230,9 @@ def corrupt(b: bytes) -> bool:
     if RANGES and not _in_ranges(b[0]):
         return True
     data = list(IMG)
+    if WIN in BLANK:
+        for i in range(BLANK[WIN][0], BLANK[WIN][1]):
+            data[i] = 0
     for i in range(width):
         data[off + i] = b[i]
     iso = pycdlib.PyCdlib()
@@ -279,13 +288,13 @@ QUICK = {
     'T1': ['root_rec3_dlen'],
     'T2': ['svd_escape'],
     'T3': ['cat_initial', 'cat_section_entry', 'cat_after'],
-    'T4': ['udf_anchor_tag'],
+    'T4': ['udf_anchor_tag', 'udf_root_fe_blank', 'udf_fsd_blank'],
 }
 THOROUGH = {
     'T1': ['root_rec3_dlen', 'root_dot_extent_lo', 'root_rec3_extent_lo', 'root_rec3_flags', 'root_rec3_len'],
     'T2': ['svd_escape'],
     'T3': ['cat_initial', 'cat_section_entry', 'cat_after'],
-    'T4': ['udf_anchor_tag'],
+    'T4': ['udf_anchor_tag', 'udf_root_fe_blank', 'udf_fsd_blank'],
 }
 # one-byte windows restricted to the interesting value ranges in the quick tier (each value costs one full open_fp under tracing)
 QUICK_RANGED = {
